@@ -42,7 +42,7 @@ def run(ctx):
         ranges.append((c - 300, c + 300))
     if thorough:
         ranges += [((1 << 40) - 300, (1 << 40) + 300), ((1 << 48) - 100, (1 << 48) + 100), ((1 << 56) - 100, (1 << 56) + 100),
-                   ((1 << 64) - 300, 1 << 64)]
+                   ((1 << 64) - 300, (1 << 64) - 1)]
     calls, terms, meta = [], [], []
     for lo, hi in ranges:
         for off in (0x80, 0xC0):
